@@ -54,6 +54,8 @@ run "date of a header line is looked for behind the name only" C12
 run "can not be listed is an error" C18
 run "beyond the file size limit fails" C18
 run "comparisons of failed hunks with the file take a bounded amount" C11
+run "lists of earlier patches in a failure report are bounded" C11
+run "file where an emptied directory used to be does not stop the cleaning" C05
 # the check of backups uses the function that the check of targets introduced: undone together
 c3=$(h "does not follow a symbolic link below .pc"); c4=$(h "leads out of the working directory through a symbolic link")
 tools/revert_eval.sh $c3,$c4 C19 2>&1 | grep -v conda | cut -c1-220 >> $out
